@@ -32,6 +32,12 @@ pub fn format(
     let removed_pos_iter = removed_pos.iter();
     for (pos, pair_idx) in removed_pos_iter {
         let range = format_block(content, *pos, formatters);
+        #[cfg(feature = "verif-hooks")]
+        crate::verif_hooks::emit(
+            "Seam",
+            vec![vec![*pos as i64, range.start as i64, range.end as i64]],
+            None,
+        );
         ranges.push(range);
 
         if let Some(pair_idx) = pair_idx {
@@ -41,6 +47,12 @@ pub fn format(
                     v.extend(f.format(content, *pos, pair_start_pos));
                     v
                 });
+                #[cfg(feature = "verif-hooks")]
+                {
+                    let mut rows = vec![vec![*pos as i64, pair_start_pos as i64]];
+                    rows.extend(crate::verif_hooks::range_rows(&ranges));
+                    crate::verif_hooks::emit("Block", rows, None);
+                }
                 open_structure_remove_range.extend(ranges);
             }
         }
@@ -48,6 +60,8 @@ pub fn format(
 
     merge_ranges(&mut ranges, open_structure_remove_range);
     merge_overlapped_ranges(&mut ranges);
+    #[cfg(feature = "verif-hooks")]
+    crate::verif_hooks::emit("FinalRanges", crate::verif_hooks::range_rows(&ranges), None);
 
     ranges
         .into_iter()
